@@ -112,9 +112,9 @@ CLAIMS.update({
     technique="Coq proof (inductive invariant, case analysis + lia per operation) + T1 constant translation + oracle-judged scheduled exploration on mirrored source",
     ref="DESIGN.md §5 C13, Appendix B"),
  "C14": dict(
-    text="Coq theorems: a query addresses exactly the accepting connections with mapped requests and consecutive slots in connection order (c14_requests), the requester proceeds only when all replies are in (c14_waits_for_all) and yields them in slot = connection order (c14_yields_in_connection_order), a reply fills exactly its slot (c14_reply_matched); CachedRwLock: after a write through any clone every clone's next read/write_scratchpad starts from the updated list, scratchpad edits are local, the epoch invariant holds in every reachable state (c14_clones_*); instance under all short schedules. Tie: query benches with 0..6 connections, filters, maps, nested queries and capacity-1 replier mailboxes on 1..16 threads vs Sim.v + reply oracle; op sequences on the verbatim cached_rw_lock.rs vs CachedRw.v.",
-    note=SIMNOTE + "PARTIAL: BroadcastFuture's poll loop and TaskSet are not modelled (Broadcast.v / TaskSetConc.v not built): completion orders are exercised, spurious wake-ups are not injected; reply iterators are always fully consumed by the harness; connect-during-run is covered only by the CachedRw theorems.",
-    technique="Coq proof (query step lemmas + CachedRw invariant) + differential bench / op-sequence correspondence + reply oracle",
+    text="Coq theorems: a query addresses exactly the accepting connections with mapped requests and consecutive slots in connection order (c14_requests), the requester proceeds only when all replies are in (c14_waits_for_all) and yields them in slot = connection order (c14_yields_in_connection_order), a reply fills exactly its slot (c14_reply_matched); CachedRwLock: after a write through any clone every clone's next read/write_scratchpad starts from the updated list, scratchpad edits are local, the epoch invariant holds in every reachable state (c14_clones_*); instance under all short schedules. Tie: query benches with 0..6 connections, filters, maps, nested queries and capacity-1 replier mailboxes on 1..16 threads vs Sim.v + reply oracle; op sequences on the verbatim cached_rw_lock.rs vs CachedRw.v. Broadcast of one query (Broadcast.v: QueryBroadcaster::broadcast, BroadcasterInner::futures, BroadcastFuture::new/poll/drop and the lazily consumed reply iterator over an abstract task set and wake sink): for every number of repliers, every sequence of queries and filters, every order of completions / failures / spurious wake-ups between polls and inside the polls of other sub-futures, an Ok result carries exactly the replies of the accepting repliers of this query in connection order (c14_broadcast_replies), the slot/counter invariant is kept by every operation (c14_broadcast_invariant), and a Pending multi-replier broadcast leaves the parent armed so that the next wake-up notifies it and is recorded (c14_broadcast_pending_armed, c14_broadcast_wake_notifies, c14_broadcast_wake_recorded); tied to the code by running the verbatim broadcaster.rs with the real task_set.rs and diatomic-waker on the same scripted scenarios.",
+    note=SIMNOTE + "The lock-free implementation of TaskSet (util/task_set.rs) under truly concurrent wake-ups is NOT modelled: Broadcast.v uses an abstract task set driven sequentially (wake-ups between polls and inside sub-future polls), and the real TaskSet is only exercised sequentially by the scripted scenarios and concurrently by the simh benches on 1..16 threads; the theorems exclude runs that hit the model's loop bound (result BRFuel, never observed); connect-during-run is covered only by the CachedRw theorems.",
+    technique="Coq proof (query step lemmas + CachedRw invariant) + differential bench / op-sequence correspondence + reply oracle + scripted broadcast scenarios on mirrored broadcaster.rs vs Broadcast.v",
     ref="DESIGN.md §5 C14"),
  "C19": dict(
     text="Coq theorems (task level): in every reachable state of TaskSM the invariant holds, and once every handle is gone the memory has been freed exactly once, the future dropped exactly once, nothing accessed after release (c19_cancel_releases, c19_no_leak_no_double_free) - cancellation racing with wakers and a runner is what an executor drop does to each task. Tie: cancel-heavy schedules on the verbatim task.rs; the Simulation is dropped at the end of fault / deadlock / hierarchy / scheduling benches (pending actions, blocked senders, pending queries) on 1..16 threads: every added model dropped exactly once, no model code afterwards, the drop returns (watchdog).",
